@@ -257,7 +257,16 @@ def runTail (cap : Nat) (bs : Bytes) : String :=
          let oks := (items.filter (fun i => match i with
            | .ok _ => true
            | .error _ => false)).length
-         s!"tail rc={d.rowsCount} ok={oks} err={items.length - oks}"
+         -- the failing column and error kind of every Err item, run-length encoded
+         let errs := items.filterMap (fun i => match i with
+           | .ok _ => none
+           | .error (c, k) => some s!"{c}:{k}")
+         let rle := errs.foldl (fun (acc : List (String × Nat)) e =>
+           match acc with
+           | (e', n) :: rest => if e' == e then (e', n + 1) :: rest else (e, 1) :: acc
+           | [] => [(e, 1)]) []
+         s!"tail rc={d.rowsCount} ok={oks} err={items.length - oks} errs=" ++
+           lst (rle.reverse.map (fun p => s!"{p.1}*{p.2}"))
        | _ => "err meta")
     | (.ok _, _) => "err notrows"
     | _ => "err result"
